@@ -15,43 +15,54 @@ Inductive sres := SOk (ids : list bytes) | SRaise | SFuel.
 Section Scanner.
 Variable ks : list bytes.                 (* sorted keys visible to the transaction *)
 Variable prefix : byte.
-Variable since until : option bytes.      (* already converted with to_bytes(4,"big") *)
+Variable has_time : bool.                 (* entries are key 00 time(4) 00 id(32); the id index has bare keys *)
+Variable since0 until0 : option bytes.    (* already converted with to_bytes(4,"big") *)
 Variable events : bytes -> bool.          (* `event_id in events` *)
 
-Definition add_time : bytes := match until with Some u => [0%N] ++ u ++ [0%N] | None => [] end.
+Definition since := if has_time then since0 else None.
+Definition until := if has_time then until0 else None.
+Definition separator : bytes := if has_time then [0%N] else [].
+Definition entry_tail : nat := if has_time then 37%nat else 0%nat.
+Definition add_time : bytes :=
+  if has_time then match until with Some u => u ++ [1%N] | None => [255; 255; 255; 255; 1]%N end
+  else [1%N].
 
 (* next_match(): (match, skipped, cursor, remaining) *)
 Definition next_match (rem : list bytes) : option (bytes * bool * cursor * list bytes) :=
   match rem with
   | [] => None
   | m :: rem' =>
-      let '(found, c) := set_range ks (m ++ add_time ++ [255%N]) in
+      let '(found, c) := set_range ks (m ++ add_time) in
       let c' := if found then snd (cur_prev ks c) else c in
       Some (m, found, c', rem')
   end.
 
+Definition prefix_ok (key m : bytes) : bool := list_eqb N.eqb (firstn (length m) key) m.
 Definition reject (key m : bytes) : bool :=
-  let ts := slice_from_end key 37 33 in
-  negb (list_eqb N.eqb (firstn (length m) key) m)
+  let ts := firstn 4 (skipn (length m) key) in
+  negb (prefix_ok key m)
   || match since with Some s => lex_ltb ts s | None => false end
   || match until with Some u => lex_ltb u ts | None => false end.
 
-Fixpoint scan_match (fuel : nat) (stop m : bytes) (rem : list bytes) (c : cursor) (acc : list bytes) : sres :=
+Fixpoint scan_match (fuel : nat) (m : bytes) (rem : list bytes) (c : cursor) (acc : list bytes) : sres :=
   match fuel with
   | O => SFuel
   | S f =>
       let key := cur_key ks c in
-      if reject key m then
+      if prefix_ok key m && negb (Nat.eqb (length key) (length m + entry_tail)) then
+        (* entry of a longer value that contains the separator: step over it *)
+        let '(ok, c') := cur_prev ks c in
+        if ok then scan_match f m rem c' acc else SOk (rev acc)
+      else if reject key m then
         match next_match rem with
         | None => SOk (rev acc)
-        | Some (m', found, c', rem') => if found then scan_match f stop m' rem' c' acc else SOk (rev acc)
+        | Some (m', found, c', rem') => if found then scan_match f m' rem' c' acc else SOk (rev acc)
         end
-      else if lex_ltb key stop then SOk (rev acc)
       else
         let eid := last_n key 32 in
         let acc' := if events eid then eid :: acc else acc in
         let '(ok, c') := cur_prev ks c in
-        if ok then scan_match f stop m rem c' acc' else SOk (rev acc')
+        if ok then scan_match f m rem c' acc' else SOk (rev acc')
   end.
 
 Fixpoint scan_range (fuel : nat) (stop : bytes) (c : cursor) (acc : list bytes) : sres :=
@@ -78,20 +89,20 @@ Fixpoint compile (l : list kres) : option (list bytes) :=     (* None = Overflow
 Definition scanner (matches : list kres) : sres :=
   match compile matches with
   | None => SRaise
-  | Some cms =>
+  | Some cms0 =>
+      let cms := map (fun m => m ++ separator) cms0 in
       let fuel := ((length cms + 2) * (length ks + 3))%nat in
       match cms with
       | _ :: _ =>
-          let stop0 := match cms with [_] => [prefix] | _ => last cms [] end in
-          let stop := match since with Some s => stop0 ++ [0%N] ++ s | None => stop0 end in
           match next_match cms with
-          | Some (m, _, c, rem) => scan_match fuel stop m rem c []
+          | Some (m, _, c, rem) => scan_match fuel m rem c []
           | None => SOk []
           end
       | [] =>
-          let start := match until with Some u => [prefix] ++ u ++ [0%N] | None => [prefix; 255%N] end in
-          let c := snd (set_range ks start) in
-          let stop := match since with Some s => [prefix] ++ s ++ [255%N] | None => [prefix] end in
+          let start := match until with Some u => [prefix] ++ u ++ [1%N] | None => [prefix; 255; 255; 255; 255; 1]%N end in
+          let '(found, c0) := set_range ks start in
+          let c := if found then snd (cur_prev ks c0) else c0 in
+          let stop := match since with Some s => [prefix] ++ s | None => [prefix] end in
           scan_range fuel stop c []
       end
   end.
@@ -101,6 +112,8 @@ End Scanner.
 Definition conv_time (o : option Z) : option (option bytes) :=
   match o with None => Some None | Some z => match be4 z with Some b => Some (Some b) | None => None end end.
 
+Definition idx_has_time (i : idx) : bool := match i with IxIds => false | _ => true end.
+
 Definition index_scanner (ks : list bytes) (i : idx) (matches : list mval) (since until : option Z)
            (events : bytes -> bool) : sres :=
   let compiled := map (to_key i) matches in
@@ -109,7 +122,7 @@ Definition index_scanner (ks : list bytes) (i : idx) (matches : list mval) (sinc
   | None => SRaise
   | Some _ =>
       match conv_time since, conv_time until with
-      | Some s, Some u => scanner ks (idx_prefix i) s u events compiled
+      | Some s, Some u => scanner ks (idx_prefix i) (idx_has_time i) s u events compiled
       | _, _ => SRaise
       end
   end.
